@@ -248,7 +248,7 @@ func init() {
 		Bubble: true,
 		Cases: func(tier string) int {
 			if tier == "thorough" {
-				return 30000
+				return 100000
 			}
 
 			return 1400
